@@ -18,14 +18,14 @@ process for an action: a `fork` occurs only if some rule tree has a `command` CO
 (`Proofs.confHasCommand conf`; conditions are evaluated under `-d` exactly as otherwise - `expr_eval_command`
 runs the program -, actions are never executed: `C05_dry_runs_no_action`).
 
-(Audit au1 noted that before package p4 "`c ≠ .fork`" held only because the world model had no call for `command` CONDITIONS -
+(Audit au1 noted that before package p4 "`c.isFork = false`" held only because the world model had no call for `command` CONDITIONS -
 they were evaluated with the constant oracle -1 - while mdsort does run the program of a `command` condition under `-d`.  The
 conditions are now evaluated inside the run, `Model.evalP`; the statement says when a `fork` occurs, and the world-level theorems
 of C01-C06 speak about runs in which those conditions are answered by the operating system.) -/
 theorem C05_dry_no_mutation (env : PEnv) (orc : EvalOracles) (ok : Bool) (conf : List ConfBlock) (files : Files) (input : Bytes)
     (w : World) (plan : Plan) (hd : env.dryrun = true) (hm : env.stdinMode = false) :
     ∀ c ∈ Proofs.callsOf plan (mainP env orc ok conf files input) w,
-      c.mutating = false ∧ (c = .fork → Proofs.confHasCommand conf = true) :=
+      c.mutating = false ∧ (c.isFork = true → Proofs.confHasCommand conf = true) :=
   Proofs.dryrun_no_mutation env orc ok conf files input w plan hd hm
 
 /-- In particular a configuration without `command` condition starts no process under `-d` (the statement as it was
@@ -33,10 +33,13 @@ before evaluation was part of the world model). -/
 theorem C05_dry_no_fork (env : PEnv) (orc : EvalOracles) (ok : Bool) (conf : List ConfBlock) (files : Files) (input : Bytes)
     (w : World) (plan : Plan) (hd : env.dryrun = true) (hm : env.stdinMode = false)
     (hc : Proofs.confHasCommand conf = false) :
-    ∀ c ∈ Proofs.callsOf plan (mainP env orc ok conf files input) w, c.mutating = false ∧ c ≠ .fork := by
+    ∀ c ∈ Proofs.callsOf plan (mainP env orc ok conf files input) w, c.mutating = false ∧ c.isFork = false := by
   intro c hcm
   obtain ⟨h1, h2⟩ := C05_dry_no_mutation env orc ok conf files input w plan hd hm c hcm
-  exact ⟨h1, fun h => by rw [h2 h] at hc; cases hc⟩
+  refine ⟨h1, ?_⟩
+  cases hf : c.isFork with
+  | false => rfl
+  | true => rw [h2 hf] at hc; cases hc
 
 /-- **No exec action runs under `-d`**: once the rules have decided (whatever the verdict is: any action list, with
 any number of `exec` actions), the rest of the processing of the message is closing its descriptor - no `fork`, nothing
@@ -162,7 +165,7 @@ theorem C05_args_dry_no_mutation (permute : Bool) (args : List Bytes) (raw : Raw
     (h : parseArgs permute args = .ok o) (hd : o.dryrun = true) (hm : o.stdinMode = false) :
     ∀ c ∈ Proofs.callsOf plan (mainArgs permute args raw env orc rxOk confText files input) w,
       c.mutating = false ∧
-      (c = .fork → ∃ home tmpdir confpath ok conf,
+      (c.isFork = true → ∃ home tmpdir confpath ok conf,
         mainArgs permute args raw env orc rxOk confText files input =
           mainP (Proofs.Opts.runEnv env o home tmpdir confpath) orc ok conf files input ∧
         Proofs.confHasCommand conf = true) := by
@@ -241,7 +244,7 @@ Read for the mutating calls only: a process is started only for a `command` cond
 `write` to the spool file, or the `rmdir` of the spool. -/
 theorem C05_dry_stdin_mutating (env : PEnv) (cm sa : Bool) (tr : List (Call × Res)) (c : Call)
     (h : Proofs.DrySpoolCall env cm sa tr c) :
-    (c = .fork → cm = true) ∧ (c.mutating = true →
+    (c.isFork = true → cm = true) ∧ (c.mutating = true →
       (∃ t, c = .mkdtemp t ∧ pathjoin PATH_MAX env.tmpdir (ofString "mdsort-XXXXXXXX") = some t) ∨
       (∃ p, c = .mkdir p ∧ Proofs.dry_IsNew tr p) ∨
       (∃ d n, c = .openExcl d n ∧ Proofs.dry_IsDir tr d) ∨
